@@ -165,9 +165,10 @@ Qed.
 Lemma forallb_ext' {A} (f g : A -> bool) l : (forall x, f x = g x) -> forallb f l = forallb g l.
 Proof. intros H. induction l as [|x r IH]; cbn; [reflexivity|]. rewrite H, IH. reflexivity. Qed.
 
-Lemma value_members_no_diag n ms : snd (value_members n ms) = [] -> fst (value_members n ms) = map l_name (filter l_const ms).
+Lemma value_members_no_diag n ms : snd (value_members n ms) = [] ->
+  fst (value_members n ms) = sort_by (fun s => s) (map l_name (filter l_const ms)).
 Proof.
-  unfold value_members. cbn [fst snd]. intros Hd. f_equal.
+  unfold value_members. cbn [fst snd]. intros Hd. f_equal. f_equal.
   induction ms as [|l t IH]; cbn in *; [reflexivity|]. apply app_eq_nil in Hd. destruct Hd as [H1 H2].
   unfold leaf_value in *. destruct (l_const l); cbn in *; [|apply IH; exact H2].
   destruct (l_conv_ok l); cbn in *; [f_equal; apply IH; exact H2|discriminate].
@@ -175,7 +176,7 @@ Qed.
 
 Lemma gadget_form o n w r ms :
   (role_of o n = RSerial \/ role_of o n = RValue) -> snd (const_prop (role_of o n) (PGadget n w r GSupported ms)) = [] ->
-  fst (const_prop (role_of o n) (PGadget n w r GSupported ms)) = [{| f_name := n; f_members := map l_name (filter l_const ms) |}].
+  fst (const_prop (role_of o n) (PGadget n w r GSupported ms)) = [{| f_name := n; f_members := sort_by (fun s => s) (map l_name (filter l_const ms)) |}].
 Proof.
   intros Hr Hc. pose proof (value_members_no_diag n ms) as Hvm.
   destruct Hr as [E | E]; rewrite E in *; unfold const_prop in *; destruct (value_members n ms) as [m d] eqn:V; cbn [fst snd pname] in *.
@@ -205,7 +206,7 @@ Qed.
 
 Theorem gadget_members_placed o n w r ms :
   (role_of o n = RSerial \/ role_of o n = RValue) -> fate_diags o (PGadget n w r GSupported ms) = [] ->
-  fate_form o (PGadget n w r GSupported ms) = [{| f_name := n; f_members := map l_name (filter l_const ms) |}]
+  fate_form o (PGadget n w r GSupported ms) = [{| f_name := n; f_members := sort_by (fun s => s) (map l_name (filter l_const ms)) |}]
   /\ (forallb l_const ms = true -> fate_header o (PGadget n w r GSupported ms) = [])
   /\ (forallb l_const ms = false -> exists hm, fate_header o (PGadget n w r GSupported ms) = [{| h_name := n; h_members := hm |}]
                                                /\ Permutation hm (map l_name ms)).
